@@ -26,12 +26,16 @@ def build_model(decls, cfg, record_lookups=False, desc_over=None):
     lookups = []
     undo = []
     if record_lookups:
-        import dznpy.adv_shell as adv  # pylint: disable=import-outside-toplevel
-        from dznpy.adv_shell.core import processing  # pylint: disable=import-outside-toplevel
+        import sys  # pylint: disable=import-outside-toplevel
+        import dznpy.adv_shell  # noqa: F401  pylint: disable=import-outside-toplevel,unused-import
+        from dznpy import ast_view  # pylint: disable=import-outside-toplevel
         env = [{'kind': KIND_OF[type(x).__name__], 'fqn': list(x.fqn.items)}
                for cont in (fct.components, fct.enums, fct.externs, fct.foreigns, fct.interfaces, fct.subints, fct.systems)
                for x in cont]
-        for mod in (adv, processing):
+        # every loaded dznpy module that imported the lookup function by name (wherever the builder's code lives)
+        users = [m for n, m in list(sys.modules.items()) if n.startswith('dznpy') and m is not None
+                 and getattr(m, 'find_fqn', None) is ast_view.find_fqn and m is not ast_view]
+        for mod in users:
             orig = mod.find_fqn
 
             def wrapper(fc_, ns_ids, inner=None, _orig=orig):
